@@ -463,6 +463,15 @@ SEARCH_SOURCES = [
     "x = True\ny = 1.5\nz = 1\nw = '1'\n",
     "import os\nfrom a import b as c, d\nasync def g():\n    x = 1\n    y = 2\n",
     "if a:\n    pass\nelif b:\n    x = 1\n    y = 2\nelse:\n    x = 1\n",
+    # runs of statements that match the first / last template of a sequence pattern (no expansion in finditer)
+    "x = 1\nx = 1\nx = 1\ny = 2\ny = 2\ny = 2\nz = 3\na = b\na = b\na = b\nb = a\nb = a\n",
+    "def f():\n    x = 1\n    x = 1\n    y = 2\n    y = 2\nfor i in r:\n    a = b\n    a = b\n    a = b\n",
+]
+SEARCH_TMPLS = [   # walk_wildcard with hand-built templates: tuples (a node is reported once), types, object
+    "(ast.Name(id='a'), ast.Name)", "(ast.Name, ast.Name(id='a'))", "(ast.Name, ast.expr)", "(ast.Constant, ast.Name, ast.Constant)",
+    "(W('n', ast.Name), W('c', ast.Constant), W('n', ast.expr))", "ast.expr", "ast.stmt", "ast.Name", "(ast.If, ast.For, ast.If)",
+    "object", "ast.AST", "W('x')", "W('x', ast.Name)", "(ast.Assign(targets=[W('t')]), ast.Assign)", "[ast.Name]", "{ast.Name}", "1",
+    "(ast.Name(id=W('i')), ast.Attribute(attr=W('i')))",
 ]
 SEARCH_PATTERNS = [
     "f({{x}}, {{x}})", "f({{a*}})", "f({{...*}})", "{{x}} = {{x}}", "{{x}} = {{y}}", "{{x}} + {{x}}", "{{x}} + {{y}}",
@@ -489,11 +498,11 @@ IMPORT_PATTERNS = [
 ]
 
 
-def walk_impl(mods, pattern, source):
+def walk_impl(mods, pattern, source, tmpl_expr=None):
     """the search entry points on the real code: returns (kind, template, results)"""
     core, processing = mods["core"], mods["processing"]
     with common.quiet():
-        tmpl = core.compile_template(pattern)
+        tmpl = build_tmpl(mods, tmpl_expr) if tmpl_expr else core.compile_template(pattern)
         root = ast.parse(source)
         if isinstance(tmpl, list):
             res = [tuple(ms) for ms in core.walk_sequence(root, *tmpl)]
@@ -511,6 +520,9 @@ def cases_search(mods, tier, rnd):
     for s in IMPORT_SOURCES:
         for p in IMPORT_PATTERNS:
             out.append({"kind": "search", "pattern": p, "source": s})
+    for s in SEARCH_SOURCES:
+        for t in SEARCH_TMPLS:
+            out.append({"kind": "search", "tmpl": t, "source": s})
     n = 60 if tier == "quick" else 1500
     for _ in range(n):
         src = "\n".join(rstmts(rnd)) + "\n"
@@ -562,6 +574,7 @@ class Builder:
         self.tnames = {}
         self.strips = {}
         self.raised = Counter()
+        self.forced = []
         self.skipped = Counter()
         order = mods["constants"]
         self.body_order = [c.__name__ for c in
@@ -634,9 +647,10 @@ class Builder:
         mods, conv = self.mods, self.conv
         core = mods["core"]
         try:
-            kind, tmpl, root, res = walk_impl(mods, c["pattern"], c["source"])
-        except Exception as e:  # noqa
-            self.skipped["search-raises:" + type(e).__name__] += 1
+            kind, tmpl, root, res = walk_impl(mods, c.get("pattern"), c["source"], c.get("tmpl"))
+        except Exception as e:  # noqa   (the model is total: an exception is a disagreement)
+            self.raised["search-raises:" + type(e).__name__] += 1
+            self.forced.append(dict(c, error=f"{type(e).__name__}: {e}"[:200]))
             return None
         try:
             if kind == "one":
@@ -705,6 +719,10 @@ def oracle_case(mods, pattern: str, source: str):
             return None
         root = ast.parse(source)
         found = [(m.span.start, m.span.end) for m in pm.finditer(pattern, source)]
+        try:    # the API also takes a compiled pattern: same occurrences
+            found_c = [(m.span.start, m.span.end) for m in pm.finditer(tmpl, source)]
+        except Exception as e:  # noqa
+            found_c = f"raises {type(e).__name__}: {e}"[:120]
 
         def spans(items):
             out = []
@@ -729,6 +747,11 @@ def oracle_case(mods, pattern: str, source: str):
     missing = sorted(set(want) - set(found), key=str)
     extra = sorted(set(found) - set(want), key=str)
     dup = len(found) != len(set(found))
+    if found_c != found:
+        return {"pattern": pattern, "source": source, "missing": [], "extra": [], "duplicates": dup,
+                "found": [source[a:b] for a, b in found][:10], "model_agrees": False,
+                "compiled_pattern": found_c if isinstance(found_c, str) else [source[a:b] for a, b in found_c][:10],
+                "note": "finditer(compile(pattern), source) differs from finditer(pattern, source)"}
     if not missing and not extra and not dup:
         return None
     show = lambda sp: source[sp[0]:sp[1]] if isinstance(sp[0], int) else str(sp)  # noqa
@@ -895,7 +918,7 @@ def check(run: common.Run):
         (wp if r[0] == "w" else sp).append(c)
         hist["search:" + r[0] + (":hits" if r[2] else ":none")] += 1
         if r[2]:
-            distinct.add(("search", c["pattern"], c["source"]))
+            distinct.add(("search", c.get("pattern") or c["tmpl"], c["source"]))
     f3, s3 = write_files(wd, "walk", wt, wp, "wcase", "wcase_ok", per=100, defs=B.conv.defs)
     f4, s4 = write_files(wd, "seq", st, sp, "scase", "(scase_ok (AST_TYPES_WITH_BODY ++ AST_TYPES_WITH_ORELSE))", per=100,
                         defs=B.conv.defs)
@@ -914,6 +937,7 @@ def check(run: common.Run):
     results = common.run_case_files(files)
     t_coq = time.time()
     disagreements = []
+    disagreements += B.forced
     for p, shard in zip(files, shards):
         rc, out = results[p]
         idx = common.parse_nat_list(out) if rc == 0 else None
@@ -1051,7 +1075,7 @@ def failing_input_search(mods, kf, seeds, rnd):
     out = []
     cand = []
     for d in seeds:
-        if d.get("kind") == "search":
+        if d.get("kind") == "search" and d.get("pattern"):
             cand.append((d["pattern"], d["source"]))
         elif d.get("kind") == "match" and pattern_of(d["tmpl"]):
             cand.append((pattern_of(d["tmpl"]), d["source"] + "\n"))
@@ -1105,7 +1129,7 @@ def replay(path: str) -> int:
             p.write_text(p.read_text() + "Eval vm_compute in (map (fun c => match_template (c_tmpl c) (c_val c)) cases).\n")
             print("model:", common.coqc(p)[1][-3000:])
     elif d.get("kind") == "search":
-        print("implementation:", walk_impl(mods, d["pattern"], d["source"])[3])
+        print("implementation:", walk_impl(mods, d.get("pattern"), d["source"], d.get("tmpl"))[3])
     elif data.get("kind") == "proof":
         print(data.get("log"))
     return 0
